@@ -55,14 +55,40 @@ SQL_CTE = re.compile(r"^(extend|table_reference|natural_join|join_source_left|jo
                      r"order_rows|rename|map_columns|select_columns|drop_columns|convert_records_blocks_in|convert_records_blocks_out)_\d+$")
 
 
-def finding_for(backend, rho, hostile):
+def shared_join_columns(recipe, rho):
+    """renamed names of the columns that both sides of some natural_join carry (the only columns for which the
+    executors themselves create a suffixed helper column)"""
+    out = set()
+    for n in B.walk(recipe):
+        if n["op"] == "natural_join":
+            try:
+                l = set(B.build(n["src"]).column_names)
+                r = set(B.build(n["right"]).column_names)
+            except Exception:
+                continue
+            out |= {rho.get(c, c) for c in (l & r)}
+            for k in n["on"]:  # key columns get helper copies too (differently named keys)
+                for c in (k if isinstance(k, (list, tuple)) else [k]):
+                    out.add(rho.get(c, c))
+    return out
+
+
+SUFFIXES = ("_tmp_right_col", "_da_right_tmp", "_da_left_tmp", "_da_join_tmp_key")
+
+
+def finding_for(backend, rho, hostile, recipe=None):
     """attribute only when a single hostile target is involved and it is one of the recorded scratch / CTE names of
-    that backend (a table name for the CTE finding, a column name for the scratch-column findings)"""
+    that backend (a table name for the CTE finding, a column name for the scratch-column findings); a suffixed helper
+    name <col>_tmp_right_col counts only when <col> really is shared by the two sides of a join of the pipeline"""
     if len(hostile) != 1:
         return None
     h = hostile[0]
     src = [k for k, v in rho.items() if v == h]
     is_table = bool(src) and src[0].startswith("table:")
+    for suf in SUFFIXES:
+        if h.endswith(suf):
+            if recipe is None or h[: -len(suf)] not in shared_join_columns(recipe, rho):
+                return None
     if backend == "pandas" and not is_table and PANDAS_SCRATCH.match(h):
         return F_PANDAS
     if backend == "polars" and not is_table and POLARS_SCRATCH.match(h):
@@ -200,7 +226,7 @@ def judge(b, case, sq, rng, rhos=None):
             b.count("renamed_build_raised", tag)
             b.violation("renamed-pipeline-rejected", f"the pipeline builds under its original names but not under {hostile or 'plain fresh names'}: "
                         f"{exc_str(ex)[:300]}\npipeline: {diff.describe(case)[-500:]}", case=dict(cj, rho=rho, hostile=hostile),
-                        finding_key=finding_for("pandas", rho, hostile))
+                        finding_key=finding_for("pandas", rho, hostile, recipe))
             continue
         rframes = rename_frames(frames, rho)
         for be, ref in base.items():
@@ -211,14 +237,14 @@ def judge(b, case, sq, rng, rhos=None):
                 b.violation("renamed-evaluation-raises", f"{be}: evaluates under the original names, raises under the renaming "
                             f"{ {k: v for k, v in rho.items() if v in hostile} or 'to plain fresh names'}: {exc_str(ex)[:300]}\n"
                             f"pipeline: {diff.describe(case)[-600:]}", case=dict(cj, rho=rho, hostile=hostile, backend=be),
-                            finding_key=finding_for(be, rho, hostile))
+                            finding_key=finding_for(be, rho, hostile, recipe))
                 continue
             want = rename_result(ref, rho)
             m = frames_match(want, got, ordered_by=[rho.get(c, c) for c in fo[0]] if fo else None)
             if m:
                 b.violation("result-depends-on-names", f"{be}: renaming { {k: v for k, v in rho.items() if v in hostile} or 'to plain fresh names'} "
                             f"changes the result beyond the renaming: {m}\npipeline: {diff.describe(case)[-600:]}",
-                            case=dict(cj, rho=rho, hostile=hostile, backend=be), finding_key=finding_for(be, rho, hostile))
+                            case=dict(cj, rho=rho, hostile=hostile, backend=be), finding_key=finding_for(be, rho, hostile, recipe))
                 continue
             if hostile:
                 used_sigs.append(be + ":" + ",".join(sorted(hostile)))
